@@ -56,3 +56,18 @@ Definition backup_run (c : pcfg) (s0 : pstate) (ts2 ts5 : Z) (evM evA : list eve
    else bkp_stage = BKP_STARTED.  None = refused: nothing is touched (neither the state nor the target file). *)
 Definition backup_start (s : pstate) : option pstate :=
   if p_stage s =? 0 then Some (set_stage s BKP_STARTED) else None.
+
+(* error exits of iwal_online_backup: a failing read/write in stage k (3 = main copy, 4 = first log copy, 5 = second
+   log copy / trailer) leaves through `finish:` (stages 3, 4: no lock held) or through `unlock:` (stage 5: the
+   exclusive lock and the wal mutex are released first); both set bkp_stage = 0.  held = the locks the call still
+   holds when it returns (must be none).  Work done by the stages before k stays done. *)
+Definition backup_run_fail (c : pcfg) (s0 : pstate) (ts2 ts5 : Z) (evM evA : list event) (k : Z) : pstate * bool :=
+  let (s1, _) := checkpoint c (set_stage s0 BKP_WAL_CLEANUP) false ts2 in
+  let (s2, _) := run c (set_stage s1 BKP_MAIN_COPY) evM in
+  if k <=? BKP_MAIN_COPY then (set_stage s2 0, false) else
+  let (s3, _) := flush_wl c (set_stage s2 BKP_WAL_COPY1) false in
+  let (s4, _) := run c s3 evA in
+  if k <=? BKP_WAL_COPY1 then (set_stage s4 0, false) else
+  let (s5, _) := savepoint c (set_stage s4 BKP_WAL_COPY2) ts5 true in
+  (* held exclusively here: the error exit of this stage is `unlock:` - releases, then falls into `finish:` *)
+  (set_stage s5 0, false).
